@@ -21,7 +21,7 @@ var propertyRules = map[string][]string{
 	"C16": {"OU1", "OU2", "OU3", "WR5", "VD1", "VD10", "VD11"},
 	"C17": {"OU4", "VD12", "VD15", "DT4", "DT6", "DT5", "VD13"},
 	"C18": {"ST1", "ST2", "LK1", "LK2", "WR1", "WR2"},
-	"C19": {"OU5", "OU6", "OU7", "VD8", "DT1"},
+	"C19": {"OU5", "OU6", "OU7", "OU8", "VD8", "DT1"},
 	"C20": {"VD9", "VD1", "ST2", "DT4", "DT6", "DT5", "LK4", "WR5"},
 }
 
